@@ -1,0 +1,48 @@
+//! Inert defaults for the verification hooks (compiled only with
+//! `--cfg daniel729_chess_verif`). A verification harness that includes the
+//! engine's sources supplies its own `crate::verif_hooks` with the same
+//! signatures; in this crate every hook is a no-op, so the engine behaves
+//! exactly as without the flag.
+#![allow(dead_code)]
+
+use std::sync::atomic::AtomicBool;
+use std::sync::Mutex;
+use std::thread::JoinHandle;
+use std::time::Duration;
+
+pub use std::io::stdin;
+
+#[inline(always)]
+pub fn point(_name: &'static str) {}
+
+#[inline(always)]
+pub fn point_lock<T>(_name: &'static str, _mutex: &Mutex<T>) {}
+
+#[inline(always)]
+pub fn point_join<T>(_name: &'static str, _handle: &JoinHandle<T>) {}
+
+#[inline(always)]
+pub fn will_spawn() {}
+
+#[inline(always)]
+pub fn timer_override(time: Duration) -> Duration {
+    time
+}
+
+pub struct ThreadScope;
+
+impl ThreadScope {
+    #[inline(always)]
+    pub fn enter(_name: &'static str) -> ThreadScope {
+        ThreadScope
+    }
+}
+
+#[inline(always)]
+pub fn on_node(
+    _continue_running: &AtomicBool,
+    _table: &mut crate::search::TranspositionTable,
+    _remaining_depth: u8,
+    _real_depth: u8,
+) {
+}
